@@ -195,8 +195,13 @@ def check_who_touches_disk(chk):
             hit = None
             if any(cls.startswith(a) for a in ("std::basic_ofstream", "std::basic_ifstream", "std::basic_fstream")) and (x.get("ctor") or c.get("name", "").startswith("basic_")):
                 hit = cls.split("<")[0]
-            elif q.startswith("std::filesystem::") and c.get("name") in ("create_directories", "create_directory", "remove", "remove_all", "rename", "copy", "copy_file", "resize_file"):
-                hit = q.split("(")[0]
+            elif q.startswith("std::filesystem::") and not cls and not c.get("name", "").startswith("operator") \
+                    and c.get("name") not in ("u8path", "swap", "hash_value"):
+                # every free function of std::filesystem reads or changes the disk (queries included: file_size, exists,
+                # last_write_time ... make what is written depend on what was there before)
+                hit = q.split("(")[0].split("<")[0]
+            elif cls.startswith("std::filesystem::") and any(cls.startswith("std::filesystem::" + a) for a in ("directory_iterator", "recursive_directory_iterator", "directory_entry", "file_status")):
+                hit = cls.split("<")[0]
             elif c.get("name") in ("fopen", "fwrite", "open", "creat", "unlink", "rename", "remove") and not cls:
                 hit = c.get("name")
             if hit:
